@@ -29,7 +29,7 @@ from . import common as C
 from . import xmlmodel as X
 
 PID = "C12"
-INVS = ["XmlDocTotal", "ErrorIffMalformed", "ConvAgrees", "TagFormSame", "Emit"]
+INVS = ["XmlDocTotal", "ErrorIffMalformed", "ConvAgrees", "TagFormSame", "Emit", "EmitUsed"]
 RESERVED = {"let", "module", "func", "out", "assert", "self", "import", "include", "as", "map",
             "filter", "convert", "fail", "NULL", "in", "is", "TRACE", "not", "select", "reduce",
             "true", "false", "env", "mod", "constraint"}
@@ -82,6 +82,8 @@ def matches(out, obs, rf):
         if obs.kind != "error":
             return "expected an error, got %d bytes of output" % len(obs.data)
         return None
+    if k == "okany":
+        return None if obs.kind == "ok" else "expected output, got an error"
     if k == "notwf":
         if obs.kind != "ok":
             return "expected output, got an error"
@@ -168,67 +170,108 @@ def tag_eligible(n):
     return True
 
 
-def render_node(n, use_ctor):
-    """-> (expression text, the value the expression evaluates to)"""
-    if use_ctor and tag_eligible(n):
-        fs = _fields(n)
-        parts = ["name = " + render_str(fs["name"]["s"])]
-        exp = [{"nm": "name", "val": fs["name"]}]
-        if "attrs" in fs:
-            parts.append("attrs = " + render_val(fs["attrs"]))
-            exp.append({"nm": "attrs", "val": fs["attrs"]})
-        else:
-            exp.append({"nm": "attrs", "val": {"t": "tuple", "fs": []}})
-        kids = []
-        if "children" in fs:
-            rk = [render_node(k, use_ctor) for k in fs["children"]["es"]]
-            parts.append("children = [" + ", ".join(t for t, _ in rk) + "]")
-            kids = [e for _, e in rk]
-        exp.append({"nm": "children", "val": {"t": "list", "es": kids}})
-        if "ns" in fs:
-            ns = fs["ns"]
-            if ns["t"] == "str":
-                parts.append("ns = x.ns(%s, NULL)" % render_str(ns["s"]))
-                exp.append({"nm": "ns", "val": ns})
+PRELUDE = 'let x = import "std/xml.ucg";\n'
+
+
+class Render:
+    """Renders a concrete document as ucg source.  ucg's parser takes time exponential in
+    the nesting depth of tuple / list literals (3 nested element literals: 15 s), so
+    element nodes are bound bottom-up with `let` unless the whole tree is written with
+    constructors (module instantiation parses in linear time)."""
+
+    def __init__(self, use_ctor, inline):
+        self.use_ctor = use_ctor
+        self.inline = inline
+        self.lets = []
+
+    def bind(self, text):
+        if self.inline:
+            return text
+        nm = "n%d" % (len(self.lets) + 1)
+        self.lets.append("let %s = %s;\n" % (nm, text))
+        return nm
+
+    def node(self, n):
+        """-> (expression text, the value the expression evaluates to)"""
+        if self.use_ctor and tag_eligible(n):
+            fs = _fields(n)
+            parts = ["name = " + render_str(fs["name"]["s"])]
+            exp = [{"nm": "name", "val": fs["name"]}]
+            if "attrs" in fs:
+                parts.append("attrs = " + render_val(fs["attrs"]))
+                exp.append({"nm": "attrs", "val": fs["attrs"]})
             else:
-                nf = _fields(ns)
-                parts.append("ns = x.ns(%s, %s)" % (render_str(nf["prefix"]["s"]), render_str(nf["uri"]["s"])))
-                exp.append({"nm": "ns", "val": {"t": "tuple", "fs": [{"nm": "prefix", "val": nf["prefix"]},
-                                                                  {"nm": "uri", "val": nf["uri"]}]}})
-        return "x.tag{" + ", ".join(parts) + "}", {"t": "tuple", "fs": exp}
-    if n["t"] == "tuple" and any(f["nm"] == "name" for f in n["fs"]):
-        # an element the constructor would not take: literal tuple, children rendered node by node
-        parts, exp = [], []
-        for f in n["fs"]:
-            if f["nm"] == "children" and f["val"]["t"] == "list":
-                rk = [render_node(k, use_ctor) for k in f["val"]["es"]]
+                exp.append({"nm": "attrs", "val": {"t": "tuple", "fs": []}})
+            kids = []
+            if "children" in fs:
+                rk = [self.node(k) for k in fs["children"]["es"]]
                 parts.append("children = [" + ", ".join(t for t, _ in rk) + "]")
-                exp.append({"nm": "children", "val": {"t": "list", "es": [e for _, e in rk]}})
+                kids = [e for _, e in rk]
+            exp.append({"nm": "children", "val": {"t": "list", "es": kids}})
+            if "ns" in fs:
+                ns = fs["ns"]
+                if ns["t"] == "str":
+                    parts.append("ns = x.ns(%s, NULL)" % render_str(ns["s"]))
+                    exp.append({"nm": "ns", "val": ns})
+                else:
+                    nf = _fields(ns)
+                    parts.append("ns = x.ns(%s, %s)" % (render_str(nf["prefix"]["s"]), render_str(nf["uri"]["s"])))
+                    exp.append({"nm": "ns", "val": {"t": "tuple", "fs": [{"nm": "prefix", "val": nf["prefix"]},
+                                                                      {"nm": "uri", "val": nf["uri"]}]}})
+            return self.bind("x.tag{" + ", ".join(parts) + "}"), {"t": "tuple", "fs": exp}
+        if n["t"] == "tuple" and any(f["nm"] == "name" for f in n["fs"]):
+            # an element the constructor would not take: literal tuple, children rendered node by node
+            parts, exp = [], []
+            for f in n["fs"]:
+                if f["nm"] == "children" and f["val"]["t"] == "list":
+                    rk = [self.node(k) for k in f["val"]["es"]]
+                    parts.append("children = [" + ", ".join(t for t, _ in rk) + "]")
+                    exp.append({"nm": "children", "val": {"t": "list", "es": [e for _, e in rk]}})
+                else:
+                    parts.append("%s = %s" % (render_key(f["nm"]), render_val(f["val"])))
+                    exp.append(f)
+            return self.bind("{" + ", ".join(parts) + "}"), {"t": "tuple", "fs": exp}
+        return render_val(n), n
+
+    def doc(self, val):
+        """-> (expression text for the document, the value it evaluates to)"""
+        if val["t"] != "tuple":
+            return render_val(val), val
+        names = [f["nm"] for f in val["fs"]]
+        if self.use_ctor and names == ["root"] and tag_eligible(val["fs"][0]["val"]):
+            t, e = self.node(val["fs"][0]["val"])
+            return "x.doc(%s)" % t, {"t": "tuple", "fs": [{"nm": "root", "val": e}]}
+        parts, exp = [], []
+        for f in val["fs"]:
+            if f["nm"] == "root":
+                t, e = self.node(f["val"])
+                parts.append("root = " + t)
+                exp.append({"nm": "root", "val": e})
             else:
                 parts.append("%s = %s" % (render_key(f["nm"]), render_val(f["val"])))
                 exp.append(f)
         return "{" + ", ".join(parts) + "}", {"t": "tuple", "fs": exp}
-    return render_val(n), n
 
 
-def render_doc(val, use_ctor=True):
-    """-> (expression text for the document, the value it evaluates to)"""
-    if val["t"] != "tuple":
-        return render_val(val), val
-    names = [f["nm"] for f in val["fs"]]
-    if use_ctor and names == ["root"] and tag_eligible(val["fs"][0]["val"]):
-        t, e = render_node(val["fs"][0]["val"], True)
-        return "x.doc(%s)" % t, {"t": "tuple", "fs": [{"nm": "root", "val": e}]}
-    parts, exp = [], []
-    for f in val["fs"]:
-        if f["nm"] == "root":
-            t, e = render_node(f["val"], use_ctor)
-            parts.append("root = " + t)
-            exp.append({"nm": "root", "val": e})
-        else:
-            parts.append("%s = %s" % (render_key(f["nm"]), render_val(f["val"])))
-            exp.append(f)
-    return "{" + ", ".join(parts) + "}", {"t": "tuple", "fs": exp}
+def all_elements_eligible(n):
+    if n["t"] == "tuple" and any(f["nm"] == "name" for f in n["fs"]):
+        if not tag_eligible(n):
+            return False
+        for f in n["fs"]:
+            if f["nm"] == "children" and f["val"]["t"] == "list":
+                if not all(all_elements_eligible(k) for k in f["val"]["es"]):
+                    return False
+    return True
+
+
+def render_program(val, cid):
+    """-> (program head binding `v`, the value `v` must evaluate to)"""
+    use_ctor = (cid // 3) % 4 != 0              # a quarter of the sample as plain tuple literals
+    root = next((f["val"] for f in val["fs"] if f["nm"] == "root"), None) if val["t"] == "tuple" else None
+    inline = use_ctor and (cid // 12) % 2 == 0 and root is not None and all_elements_eligible(root)
+    r = Render(use_ctor, inline)
+    text, expv = r.doc(val)
+    return PRELUDE + "".join(r.lets) + "let v = %s;\n" % text, expv
 
 
 def val_same(a, b):
@@ -261,7 +304,6 @@ def ascii_only(v):
     return True
 
 
-PRELUDE = 'let x = import "std/xml.ucg";\n'
 
 
 def program_sampled(cid, tier):
@@ -318,9 +360,7 @@ def work(h, chunk):
         reqs.append({"op": "convert", "fmt": "xml", "val": val})
         prog = None
         if program_sampled(cid, tier) and ascii_only(val):
-            use_ctor = (cid // 3) % 4 != 0         # a quarter of the sample as plain tuple literals
-            text, expv = render_doc(val, use_ctor)
-            head = PRELUDE + "let v = %s;\n" % text
+            head, expv = render_program(val, cid)
             prog = (head, expv)
             plan.append(("program-value", len(reqs), head))
             reqs.append({"op": "eval", "src": head})
@@ -415,10 +455,12 @@ def sim_configs(gd, n, traces, seed):
     them."""
     rng = random.Random("c12sim:%d" % seed)
     pool = [f for f in X.ALL_FEATURES if f not in ("n:e1", "tf:bare", "tf:tt", "t:plain")]
+    wellformed = [f for f in pool if f not in X.MALFORMED_FEATURES]
     runs = []
     for k in range(n):
-        core = ["n:e1", "tf:bare", "tf:tt", "t:plain"] + rng.sample(pool, 5)
-        rare = rng.sample([f for f in pool if f not in core], 10)
+        # malformed pieces only from the budget: a free one would make nearly every document an ERROR
+        core = ["n:e1", "tf:bare", "tf:tt", "t:plain"] + rng.sample(wellformed, 5)
+        rare = rng.sample([f for f in wellformed if f not in core], 8) + rng.sample(X.MALFORMED_FEATURES, 2)
         name = "sim%d" % k
         X.write_cfg(gd, name, 4, 4, 12, 3, core, rare, INVS)
         runs.append(("sim", name, traces, 80,
@@ -447,7 +489,7 @@ def configs(tier, gd):
         X.write_cfg(gd, "mc_pair", 2, 2, 2, 2, PAIR_CORE, rest(PAIR_CORE), INVS)
         runs.append(("mc", "mc_pair", None, None,
                      "exhaustive: documents of <=2 nodes with <=2 of the %d features (all pairs)" % len(rest(PAIR_CORE))))
-        runs += sim_configs(gd, 2, 150, C.seed())
+        runs += sim_configs(gd, 2, 60, C.seed())
     else:
         X.write_cfg(gd, "mc_feat", 3, 3, 5, 1, CORE, rest(CORE), INVS)
         runs.append(("mc", "mc_feat", None, None,
@@ -480,20 +522,20 @@ def do_replay(hp, path):
     h.close()
     bad = [r for r in rows if r[0] == "bad"]
     dev = [r for r in rows if r[0] == "dev"]
-    ok = not bad and not dev
-    print("replay %s: %s" % (path, "agrees with the specification" if ok else "DISAGREES"))
+    known = {f.get("key"): f for f in C.load_findings(PID)}
+    unknown = [r for r in dev if r[1] not in known]
+    ok = not bad and not unknown
+    print("replay %s: %s" % (path, "agrees with the specification" if not bad and not dev else
+                             ("disagrees only by recorded deviations" if ok else "DISAGREES")))
     for r in bad:
         print("  %s: %s" % (r[1]["route"], r[1]["why"]))
     for r in dev:
-        print("  %s: known deviation %s: %s" % (r[2]["route"], r[1], r[2]["why"]))
+        print("  %s: %s deviation %s: %s" % (r[2]["route"], "recorded" if r[1] in known else "UNRECORDED", r[1], r[2]["why"]))
+    for k in sorted(set(r[1] for r in dev if r[1] in known)):
+        print("KNOWN-FINDING: property=%s key=%s %s" % (PID, k, known[k].get("what", "")))
     if not ok:
         print("VIOLATION property=%s replay=%s" % (PID, path))
     return 0 if ok else 1
-
-
-def bad_key(case):
-    """a specific signature for an unexplained disagreement (never matches a finding by accident)"""
-    return None
 
 
 # ---- main -------------------------------------------------------------------------------
@@ -515,13 +557,22 @@ def main(tier, replay=None):
     states = trans = 0
     cmds = []
     seen = set()
+    used_all = set()
+    sim_dropped = 0
     for kind, name, num, depth, what in runs:
         before = len(seen)
         count = [0]
+        used_raw = set()
 
-        def on_raw(raw, count=count):
+        fresh = set()
+
+        def on_raw(raw, count=count, used_raw=used_raw, fresh=fresh):
+            if raw.startswith('{\\"used\\"'):
+                used_raw.add(raw)
+                return
             count[0] += 1
-            seen.add(raw)
+            if raw not in seen:
+                fresh.add(raw)
         r = C.run_tlc("MC_Xml", name, workers=6, simulate=num, depth=depth, gendir=gd, timeout=3000, heap="4g",
                       on_raw=on_raw)
         cmds.append(r.cmd)
@@ -531,11 +582,31 @@ def main(tier, replay=None):
         C.require_tlc_ok(r, what)
         states += r.distinct or r.generated
         trans += r.generated
-        C.log("[c12] %s: %d states, %d documents (%d new), %.0fs" % (what[:110], r.distinct or r.generated,
-                                                                    count[0], len(seen) - before, r.wall))
+        # TLC's simulator evaluates the invariants on every successor it generates (e.g. all the
+        # declaration variants of a finished tree): replay a seeded subsample of what is new
+        cap = None if kind == "mc" else (10000 if tier == "quick" else 80000)
+        if cap is not None and len(fresh) > cap:
+            import zlib
+            ranked = sorted(fresh, key=lambda raw: (zlib.crc32(("%d:" % sd).encode() + raw.encode()), raw))
+            sim_dropped += len(fresh) - cap
+            fresh = set(ranked[:cap])
+        seen |= fresh
+        used = set()
+        for raw in used_raw:
+            used |= set(C.parse_replay_payload(raw)["used"])
+        used_all |= used
+        missing = [f for f in X.CFG_FEATURES[name] if f not in used]
+        if missing and kind == "mc":     # e.g. a prefixed name costs two units (declaration + name)
+            C.log("[c12] %s: features out of reach of this configuration: %s" % (name, missing))
+        C.log("[c12] %s: %d states, %d documents (%d new), %d/%d features used, %.0fs"
+              % (what[:100], r.distinct or r.generated, count[0], len(seen) - before, len(used),
+                 len(X.CFG_FEATURES[name]), r.wall))
     shutil.rmtree(gd, ignore_errors=True)
     if not seen:
         raise C.ToolError("TLC emitted no document (vacuous run)")
+    never = [f for f in X.ALL_FEATURES if f not in used_all]
+    if never:
+        raise C.ToolError("vacuous: generator features never used in this run: %s" % never)
     # the payload of a REPLAY line is a function of the document: distinct payloads = distinct documents
     cases = sorted(seen)                                                 # determinism per seed
 
@@ -574,6 +645,8 @@ def main(tier, replay=None):
     for sig, cs in sorted(clusters.items(), key=lambda kv: -len(kv[1]))[:40]:
         C.log("[c12] unexplained x%d: %s   e.g. %s -> %r" % (len(cs), sig, json.dumps(cs[0]["value"], ensure_ascii=False)[:300],
                                                      cs[0].get("observed", "")[:200]))
+    for k, n in sorted(devcount.items()):
+        C.log("[c12] recorded deviation %s observed on %d observation(s)" % (k, n))
     for k, vs in stale.items():
         C.log("[c12] deviation %s predicted but the property held on %d document(s), e.g. %s" % (k, len(vs), vs[0][:400]))
 
@@ -595,6 +668,9 @@ def main(tier, replay=None):
                 "document with >= 2 nodes",
         "samples": samples,
         "documents": len(cases),
+        "simulated_documents_not_replayed": sim_dropped,
+        "generator_features_used": len(used_all),
+        "generator_features": len(X.ALL_FEATURES),
         "documents_by_element_depth": dict(sorted(bydepth.items())),
         "documents_by_predicted_outcome": dict(sorted(bykind.items())),
         "program_route": prog_states,
